@@ -25,6 +25,11 @@ import (
 
 var dhtReadMessageTimeout = 10 * time.Second
 
+// dhtWriteMessageTimeout bounds the time a single message may take to be
+// written. It is generous: messages can be as large as network.MessageSizeMax
+// and links can be slow; it only has to turn "forever" into an error.
+var dhtWriteMessageTimeout = 1 * time.Minute
+
 // ErrReadTimeout is an error that occurs when no message is read within the timeout period.
 var ErrReadTimeout = errors.New("timed out reading response")
 
@@ -247,7 +252,7 @@ func (ms *peerMessageSender) SendMessage(ctx context.Context, pmes *pb.Message) 
 			return err
 		}
 
-		if err := ms.writeMsg(pmes); err != nil {
+		if err := ms.writeMsg(ctx, pmes); err != nil {
 			_ = ms.s.Reset()
 			ms.s = nil
 
@@ -284,7 +289,7 @@ func (ms *peerMessageSender) SendRequest(ctx context.Context, pmes *pb.Message) 
 			return nil, err
 		}
 
-		if err := ms.writeMsg(pmes); err != nil {
+		if err := ms.writeMsg(ctx, pmes); err != nil {
 			_ = ms.s.Reset()
 			ms.s = nil
 
@@ -326,8 +331,26 @@ func (ms *peerMessageSender) SendRequest(ctx context.Context, pmes *pb.Message) 
 	}
 }
 
-func (ms *peerMessageSender) writeMsg(pmes *pb.Message) error {
-	return WriteMsg(ms.s, pmes)
+// writeMsg writes pmes to the stream. A write blocks once the remote end's
+// receive window is used up, for as long as the remote end does not read: bound
+// it by the context and by dhtWriteMessageTimeout, like the read is, so that a
+// peer that accepts the stream and then goes silent cannot hold the request
+// (and the lock on this peer's sender) forever.
+func (ms *peerMessageSender) writeMsg(ctx context.Context, pmes *pb.Message) error {
+	s := ms.s
+	stop := context.AfterFunc(ctx, func() { _ = s.Reset() })
+	defer stop()
+
+	_ = s.SetWriteDeadline(time.Now().Add(dhtWriteMessageTimeout))
+	err := WriteMsg(s, pmes)
+	if err != nil {
+		if ctx.Err() != nil {
+			return ctx.Err()
+		}
+		return err
+	}
+	_ = s.SetWriteDeadline(time.Time{})
+	return nil
 }
 
 func (ms *peerMessageSender) ctxReadMsg(ctx context.Context, mes *pb.Message) error {
